@@ -182,8 +182,9 @@ theorem C18_create_upload_refines_partial (H : Hashes) (dl : Nat) {s : State} (h
 
 /-- upload_part: only the creating identity may add a part (`AccessDenied` otherwise); an upload that does not exist — never
     issued, completed, aborted, or an id that is no UUID — is `NoSuchUpload` on both sides (38336b0; before:
-    fs:unknown-upload-code). Partial — excluded: part numbers below 1 (fs:part-number-not-validated), another key than the
-    upload's (fs:upload-not-bound-to-key) -/
+    fs:unknown-upload-code); a part number outside 1..10000 is `InvalidArgument` on both sides (531fc88; before, numbers below
+    1 were accepted: fs:part-number-not-validated). Partial — excluded only: another key than the upload's
+    (fs:upload-not-bound-to-key) -/
 theorem C18_upload_part_refines_partial (H : Hashes) (dl : Nat) {s : State} (hi : Inv s) {who : Who} {b k : Bytes}
     {u : UploadRef} {n : Int} {c : Bytes} (hg : UploadPartOk s b k u n) :
     (step H dl s (.uploadPart who b k u n c)).2 = (StoreSpec.step H (abs s) (.uploadPart who b k u n c)).2 ∧
@@ -192,8 +193,9 @@ theorem C18_upload_part_refines_partial (H : Hashes) (dl : Nat) {s : State} (hi 
 
 /-- upload_part_copy: the part becomes the source object, or its `bytes=first-last` slice. Partial — excluded: ranges the
     store refuses but the backend accepts (open-ended, beyond the end: fs:part-copy-range-unchecked; malformed ranges
-    are not covered), part numbers outside 1..10000, another key than the upload's; an upload that does not exist is
-    `NoSuchUpload` on both sides -/
+    are not covered), another key than the upload's (fs:upload-not-bound-to-key); a part number outside 1..10000 is
+    `InvalidArgument` (531fc88; before it was not checked: fs:part-number-not-validated), an upload that does not exist
+    `NoSuchUpload`, on both sides -/
 theorem C18_upload_part_copy_refines_partial (H : Hashes) (dl : Nat) {s : State} (hi : Inv s) {who : Who} {b k : Bytes}
     {u : UploadRef} {n : Int} {sb sk : Bytes} {range : Option Bytes} (hg : UploadPartCopyOk s b k u n sb sk range) :
     (step H dl s (.uploadPartCopy who b k u n sb sk range)).2 =
@@ -369,6 +371,17 @@ example : UploadPartCopyOk (run H0 4096 {} (demo.take 23)).1 bka kX (some 1) 2 b
     (some [98, 121, 116, 101, 115, 61, 49, 45, 51]) := by decide
 /-- … and they do exclude the recorded deviations: a copy onto an object that has a metadata file from a source without -/
 example : ¬ CopyOk (run H0 4096 {} (demo.take 5)).1 bka kA bka kDE := by decide
+/-- part numbers outside 1..10000 are inside `Good` for upload_part and upload_part_copy (and refused), and so are all five
+    upload operations on an upload id that was never issued or is no UUID -/
+example : Good (run H0 4096 {} (demo.take 23)).1 (.uploadPart alice bka kX (some 1) 0 [1]) ∧
+    Good (run H0 4096 {} (demo.take 23)).1 (.uploadPartCopy alice bka kX (some 1) 10001 bka kDE none) ∧
+    (step H0 4096 (run H0 4096 {} (demo.take 23)).1 (.uploadPartCopy alice bka kX (some 1) 10001 bka kDE none)).2 =
+      .err .InvalidArgument ∧
+    Good (run H0 4096 {} (demo.take 23)).1 (.uploadPart alice bka kX (some 9) 1 [1]) ∧
+    Good (run H0 4096 {} (demo.take 23)).1 (.uploadPartCopy alice bka kX none 1 bka kDE none) ∧
+    Good (run H0 4096 {} (demo.take 23)).1 (.listParts alice bka kX (some 9)) ∧
+    Good (run H0 4096 {} (demo.take 23)).1 (.completeMultipartUpload alice bka kX none (some [some 1])) ∧
+    Good (run H0 4096 {} (demo.take 23)).1 (.abortMultipartUpload alice bka kX (some 9)) := by decide
 /-- the owner's failing completes are inside `Good`, are refused, and leave the upload in place -/
 example : Good (run H0 4096 {} (demo.take 25)).1 (demo.getD 25 .listBuckets) ∧
     (run H0 4096 {} (demo.take 28)).2.drop 25 = [.err .InvalidPart, .part (some (etagOf H0 [5])), .err .EntityTooSmall] ∧
